@@ -366,6 +366,45 @@ def lname_worker(job):
     return st
 
 
+def memcheck_worker(job):
+    """The same kind of pattern rows replayed under valgrind memcheck: Oniguruma (C) compiles and runs every translated
+    pattern. A crash is a violation; memcheck reports without a crash are advisory (counted, shown in the notes)."""
+    k, nrows, seed = job
+    st = Stats()
+    rng = common.rng_for(seed, "C12m", k)
+    base = common.mkscratch("C12m%d" % k)
+    try:
+        lines = []
+        for i in range(nrows):
+            kind = KINDS[i % len(KINDS)]
+            pat, items = rand_pattern(rng)
+            if i % 5 == 0:
+                pat = "".join(rng.choice(PAT_ALPHA + ["[:", ":]", "[.", "[="]) for _ in range(rng.randint(1, 8)))
+            subs = set()
+            for _ in range(4):
+                x = sample_subject(rng, items)
+                subs.add(x)
+                subs.add(mutate_subject(rng, x))
+            paths = [subject_path(kind, x) for x in subs if "\0" not in x]
+            paths = [x for x in paths if x is not None]
+            if not paths:
+                continue
+            lines.append("\t".join(["m%d" % i, "P", "1", "2", common.hx(kind), common.hx(pat)] + [common.hx(x) for x in paths]))
+        res, rep = common.run_vh_memcheck("match", lines, base, cwd=base)
+        st.inc("memcheck_pattern_rows", rep["answered"])
+        st.inc("memcheck_error_reports", rep["errors"])
+        if rep["timed_out"]:
+            st.notes.append("memcheck run timed out (inconclusive for this shard)")
+        elif rep["crashed"]:
+            st.violate("memcheck-crash", None, {"rc": rep["rc"], "answered": rep["answered"], "cases": rep["cases"], "log": rep["first"][:600]},
+                       {"cases": lines[rep["answered"]:rep["answered"] + 3]})
+        if rep["errors"]:
+            st.notes.append("memcheck reported %d errors (advisory): %r" % (rep["errors"], rep["kinds"]))
+    finally:
+        common.force_rmtree(base)
+    return st
+
+
 def self_check():
     bad = posixfn.self_check()
     if bad:
@@ -398,6 +437,13 @@ def run(ctx):
     ctx.pmap(random_worker, [(k, nrand // nw, ctx.seed) for k in range(nw)])
     nl = ctx.scale(320, 8000)
     ctx.pmap(lname_worker, [(k, nl // nw, ctx.seed) for k in range(nw)])
+    if common.memcheck_available():
+        nm = ctx.scale(1200, 48000)
+        ctx.pmap(memcheck_worker, [(k, nm // nw, ctx.seed) for k in range(nw)])
+        ctx.require("memcheck_pattern_rows", 50)
+        ctx.assumptions.append("valgrind memcheck on the release harness: a crash is a violation, reports without a crash are advisory")
+    else:
+        ctx.stats.notes.append("valgrind not available: memcheck replay skipped")
     for key in ("pairs_matching", "pairs_not_matching", "lname_rows", "binary_runs", "feature:set", "feature:negated-set",
                 "feature:set-class", "feature:set-range", "feature:escape", "feature:stray-open-bracket", "feature:regex-meta-literal"):
         ctx.require(key, 10)
